@@ -64,7 +64,9 @@ func CmdRunAction(c *cli.Context) error {
 		}
 		wasmBytes, err := watutil.Wat2Wasm(input, watBytes)
 		if err != nil {
-			return err
+			fmt.Println("watutil.Wat2Wasm:", err)
+			os.Exit(1)
+			return nil
 		}
 		var appArgs []string
 		if args := c.Args().Slice(); len(args) > 2 {
